@@ -18,7 +18,7 @@ for d in "${dirs[@]}"; do
   res="{"
   for c in $checks; do
     o=$(scripts/check.sh "$c" quick 2>&1); rc=$?
-    keys=$(echo "$o" | grep -A1 '^VIOLATION' | grep 'key=' | sed 's/.*key=//' | head -4 | tr '\n' ';' | sed 's/"/\\"/g')
+    keys=$(echo "$o" | grep -A1 '^VIOLATION' | grep 'key=' | sed 's/.*key=//' | head -4 | tr '\n' ';' | sed 's/\\/\\\\/g; s/"/\\"/g')
     res="$res\"$c\": {\"exit\": $rc, \"violation_keys\": \"$keys\"},"
     echo "$name $c rc=$rc $keys"
   done
